@@ -419,4 +419,72 @@ theorem hasKey_fold (on : List String) (hon : on ≠ []) (hnd : on.Nodup) :
         rw [ih d' r hok' h k, hasKey_mul d t d' on hon hnd hsh hm k]
         simp only [List.mem_cons, forall_eq_or_imp, and_assoc]
 
+/-! ### constant columns (`d(**{k: v})`): scalars broadcast, defaults filled in -/
+
+theorem col?_replace_other (t : Table) (k : String) (col : List Cell) (c : String) (hc : c ≠ k) :
+    Table.col? (t.map fun x => if x.1 == k then (k, col) else x) c = t.col? c := by
+  induction t with
+  | nil => rfl
+  | cons x xs ih =>
+    simp only [Table.col?, List.map_cons, List.find?_cons] at ih ⊢
+    by_cases hx : x.1 = k
+    · have h1 : (k == c) = false := by simpa using fun h => hc h.symm
+      have h2 : (x.1 == c) = false := by rw [hx]; exact h1
+      simp only [hx, beq_self_eq_true, if_true, h1]
+      simpa [hx] using ih
+    · have hxk : (x.1 == k) = false := by simpa using hx
+      simp only [hxk, Bool.false_eq_true, if_false]
+      split
+      · rfl
+      · exact ih
+
+theorem col?_replace_same (t : Table) (k : String) (col : List Cell) (hk : k ∈ t.cols) :
+    Table.col? (t.map fun x => if x.1 == k then (k, col) else x) k = some col := by
+  induction t with
+  | nil => simp [Table.cols] at hk
+  | cons x xs ih =>
+    simp only [Table.col?, List.map_cons, List.find?_cons] at ih ⊢
+    by_cases hx : x.1 = k
+    · simp [hx]
+    · have hxk : (x.1 == k) = false := by simpa using hx
+      simp only [hxk, Bool.false_eq_true, if_false]
+      have hk' : k ∈ Table.cols xs := by
+        simp only [Table.cols, List.map_cons, List.mem_cons] at hk
+        rcases hk with h | h
+        · exact absurd h.symm hx
+        · exact h
+      exact ih hk'
+
+theorem setConst_spec (t : Table) (k : String) (v : Cell) (ht : t ≠ []) :
+    (t.setConst k v).col? k = some (List.replicate t.nrows v) ∧
+    ∀ c, c ≠ k → (t.setConst k v).col? c = t.col? c := by
+  have hte : t.isEmpty = false := by cases t <;> simp_all
+  simp only [Table.setConst, hte, Bool.false_eq_true, if_false]
+  by_cases hk : t.cols.contains k = true
+  · simp only [hk, if_true]
+    constructor
+    · exact col?_replace_same t k _ (by simpa using hk)
+    · intro c hc; exact col?_replace_other t k _ c hc
+  · simp only [hk, Bool.false_eq_true, if_false]
+    have hnone : t.col? k = none := by
+      simp only [Table.col?, Option.map_eq_none_iff, List.find?_eq_none]
+      intro x hx
+      have : x.1 ∈ t.cols := List.mem_map.2 ⟨x, hx, rfl⟩
+      intro h
+      apply hk
+      have hxk : x.1 = k := by simpa using h
+      simpa [hxk] using this
+    constructor
+    · simp only [Table.col?, List.find?_append] at hnone ⊢
+      cases hf : t.find? (fun x => x.1 == k) with
+      | some x => simp [hf] at hnone
+      | none => simp
+    · intro c hc
+      simp only [Table.col?, List.find?_append]
+      cases hf : t.find? (fun x => x.1 == c) with
+      | some x => simp
+      | none =>
+        have : (k == c) = false := by simpa using fun h => hc h.symm
+        simp [this]
+
 end Pyg
